@@ -9,7 +9,7 @@ SIM = {
  "C06": "reference state model per id decides allowed error set; delivery accounting: exactly the named running tasks observe one CancelledError, nobody else ever does; plus enumerated sweep",
  "C07": "after cancel_group/cancel_all: no start, call or pull for the group, group forgotten, siblings complete and observe no cancellation, capacity probe; plus enumerated sweep",
  "C08": "snapshot in the very step gather_and_close returns: all pre-call requests fully run, no live worker/callback, counters 0, until_closed released not earlier, later spawns PoolIsClosed; plus enumerated sweep",
- "C09": "before/after snapshot equality around every rejected call, error class in the applicable documented set, lock/unlock idempotence, rejected request never runs later",
+ "C09": "before/after snapshot equality around every rejected call, error class in the applicable documented set, lock/unlock idempotence, rejected request never runs later; metamorphic twin: the same program with every request that must be rejected not made at all has the identical observable history",
  "C10": "get_group_ids(name) vs ids observed by that request's workers, one group per id, name pattern and freshness, start-group index",
  "C11": "ids dense from 0, increasing in creation/start order, one task per id, callback id == id in task name, distinct pool names",
  "C13": "at flush return: ids finished before the call are unknown to cancel(); no running / in-callback task vanishes or is disturbed; flush(True) never raises; plus enumerated sweep",
